@@ -102,7 +102,7 @@ class PythonCryptoEndpoint(CryptoEndpoint, EndpointListener):
         Callback for when data is received on this endpoint.
         """
         source_address, datagram = packet
-        if datagram.startswith(self.prefix) and datagram[22] == CellPayload.msg_id:
+        if datagram.startswith(self.prefix) and datagram[22:23] == bytes([CellPayload.msg_id]):
             self.process_cell(source_address, datagram)
         elif self.tunnel_community:
             self.tunnel_community.on_packet(packet)
@@ -134,6 +134,9 @@ class PythonCryptoEndpoint(CryptoEndpoint, EndpointListener):
         """
         Process incoming raw data, assumed to be a cell, originating from a given address.
         """
+        if len(data) < 29:
+            self.logger.warning("Dropping cell (shorter than the cell header)")
+            return
         cell = CellPayload.from_bin(data)
         circuit_id = cell.circuit_id
 
@@ -148,6 +151,10 @@ class PythonCryptoEndpoint(CryptoEndpoint, EndpointListener):
             return
 
         if not self.incoming_crypto(cell):
+            return
+
+        if not cell.message:
+            self.logger.warning("Dropping cell (empty message)")
             return
 
         self.logger.debug("Got cell(%s) from circuit %d (sender %s)", cell.message[0], circuit_id, source_address)
